@@ -95,11 +95,39 @@ def make_prog(spec, i):
                 args = concgen.list_op(r, op, ti, si, base)
             steps.append({"op": op, "h": hof[ti], "path": [], "args": args})
         threads.append(steps)
+    directed = info.strategy == "serialized" and r.random() < 0.3
+    if directed:
+        # reader-triggered forced flush: T0 makes two modifications of F0, T1 only reads its own file F1 whose
+        # load pushes the buffer over a capacity chosen between |F0| and |F0|+|F1| (so the flush runs from the
+        # read path, outside any mutator's critical section), optionally a third thread writes F2
+        nthreads = r.choice([2, 2, 3])
+        nfiles = nthreads
+        roots = [[t, t] for t in range(nthreads)]
+        inits = [copy.deepcopy(base) for _ in range(nfiles)]
+        topo = "reader_forced_flush"
+        threads = []
+        for ti in range(nthreads):
+            if ti == 1:
+                threads.append([{"op": r.choice(["call", "len", "getitem"]), "h": 1, "path": [],
+                                 "args": []}])
+                if threads[-1][0]["op"] == "getitem":
+                    threads[-1][0]["args"] = ["a" if kind == "dict" else 0]
+                continue
+            steps = []
+            for si in range(2 if ti == 0 else 1):
+                op = r.choice(DICT_OPS if kind == "dict" else LIST_OPS)
+                args = concgen.dict_op(r, op, ti, si, base, shared_keys=False) if kind == "dict" else \
+                    concgen.list_op(r, op, ti, si, base)
+                steps.append({"op": op, "h": ti, "path": [], "args": args})
+            threads.append(steps)
+        with_cr = False
     # capacity
     if info.strategy == "serialized":
         sizes = [len(json.dumps(x)) for x in inits]
         total = sum(sizes)
         cap = r.choice([None, 0, total, total + 1, total + 12, sizes[0] - 1, sizes[0] + 5, 2 * total])
+        if directed:
+            cap = sizes[0] + r.choice([sizes[1] // 2, sizes[1] - 1, 40])
     else:
         cap = r.choice([None, 0, 1, 1, 2, 1000])
     prog = {"cls": info.name, "init": inits, "files": nfiles, "roots": roots, "pre": [], "threads": threads,
@@ -134,7 +162,7 @@ def run_shard(spec):
         prog, meta, r = make_prog(spec, i)
         runner = conc.ProgramRunner(prog)
         try:
-            pol = ("sweep",) if spec["tier"] == "quick" else ("sweep", "two_delay", "random")
+            pol = ("sweep", "boundary") if spec["tier"] == "quick" else ("sweep", "boundary", "two_delay", "random")
             res = conc.explore(prog, runner, r, spec["tier"],
                                {"cls": prog["cls"], "strategy": catalog.info(prog["cls"]).strategy,
                                 "stratum": meta["stratum"], "topology": meta["topology"], "cap": meta["cap"]},
